@@ -207,7 +207,9 @@ func isolationProbe(kv *pisces.KV) string {
 		val  string
 		app  bool
 	}{
-		{"AppendBytes creating the key", func(b []byte) error { return kv.AppendBytes(k, b) }, "12", true},
+		// AppendBytes upserts whatever it is given: an empty token on a missing key creates the (empty) entry
+		{"EMPTY: AppendBytes of an empty slice on a missing key (it must create the key)", func(b []byte) error { return kv.AppendBytes(k, b[:0]) }, "", true},
+		{"AppendBytes on the fresh empty entry", func(b []byte) error { return kv.AppendBytes(k, b) }, "12", true},
 		{"AppendBytes on the existing key", func(b []byte) error { return kv.AppendBytes(k, b) }, "34", true},
 		{"SetBytes", func(b []byte) error { return kv.SetBytes(k, b) }, "567", false},
 		{"AppendBytes after SetBytes", func(b []byte) error { return kv.AppendBytes(k, b) }, "8", true},
@@ -971,7 +973,9 @@ func (res *result) judge(rep *hx.Report) (fails [][2]string, v verdict) {
 		fail("store-wedged", "with every goroutine back, the database file stayed locked until the store was closed "+
 			"(a pooled connection was left inside a transaction); Count then answered %s", res.count)
 	}
-	if res.iso != "" {
+	if strings.HasPrefix(res.iso, "EMPTY:") {
+		fail("empty-append-not-created", "%s", strings.TrimPrefix(res.iso, "EMPTY: "))
+	} else if res.iso != "" {
 		fail("caller-slice-aliased", "value isolation: the caller overwrote (over its full capacity) a slice it had passed to or got "+
 			"from the store and the stored value moved - %s", res.iso)
 	}
